@@ -283,6 +283,13 @@ def run_orbax(case):
             from rl_blox.logging.logger import LoggerList, MemoryLogger
             top = LoggerList([MemoryLogger(), ck])
         top.define_experiment("e", "a", None)
+        if case["seed"] % 3 == 0:
+            # a logger that has counted steps before the interval is defined
+            # (re-used logger, continued run); records are still judged by the
+            # multiples of the interval they pass since the previous record
+            top.start_new_episode()
+            top.stop_episode(int(rng.integers(1, 3 * i + 2)))
+            res.see("orbax_interval_defined_on_used_logger")
         top.define_checkpoint_frequency("q", i)
         variant = case["seed"] % 2
         model = _tiny_model(variant)
